@@ -40,7 +40,8 @@ RULE = (
     'AST stays in the pool; a task whose name was removed is dropped only if '
     'it was not running / finished.  queued: a task queued before the reload '
     'is queued again (or has left the waiting state) after the next main-loop '
-    'iteration, if still ready.  Non-trivial = a reload reached the pool '
+    'iteration, if ready when the command returned and still ready.  '
+    'Non-trivial = a reload reached the pool '
     'while it held >= 1 task in a non-default state (not plain waiting: '
     'active or finished status, held, queued, a completed output or a '
     'satisfied prerequisite atom); distinct by the whole case.')
@@ -53,7 +54,15 @@ ASSUMPTIONS = [
     '`queued` is compared after the next main-loop iteration (DESIGN 5a), and '
     'only for tasks that are then still waiting, not held, not '
     'runahead-limited, not manually triggered and ready to run, with no '
-    'command in between.',
+    'command in between, and that were ready to run when the reload command '
+    'returned.  A queued task that the new definition made un-ready (a new '
+    'prerequisite, unsatisfied because its output is not recorded - which '
+    'the statement demands) cannot remain queued; if that output arrives '
+    'during the next iteration the task is ready at its end but is queued '
+    'only one iteration later, because the main loop queues ready tasks '
+    '(Scheduler._main_loop: queue_if_ready) before it processes job messages '
+    '- the same as without a reload.  Such tasks are counted as class '
+    '`queued-before:not-ready-after-reload:*`, not judged.',
     '"satisfies new prerequisites only from outputs already recorded" is read '
     'one way: new atom satisfied => output recorded (any flow).  The converse '
     '(recorded => satisfied) is only counted as a class.',
@@ -305,7 +314,19 @@ async def _check(case, ctx: Ctx) -> CaseResult:
                             classes.add('reload-while-preparing')
                         qd = [tid for tid, a in rec['before'].items()
                               if a['queued']]
-                        pending_q[:] = [(rec, qd, len(sim.trace))] if qd \
+                        # readiness when the command returns: a task that
+                        # the new definition made un-ready (new unsatisfied
+                        # prerequisite) cannot stay queued, and the main
+                        # loop queues ready tasks *before* it processes job
+                        # messages, so a task that becomes ready again
+                        # during the next iteration is queued one iteration
+                        # later, reload or no reload
+                        live = {t.identity: t
+                                for t in sim.schd.pool.get_tasks()}
+                        ready_after = {
+                            tid: bool(live[tid].is_ready_to_run())
+                            for tid in qd if tid in live}
+                        pending_q[:] = [(rec, qd, ready_after)] if qd \
                             else []
                 if ev.get('raised'):
                     viol.append(Violation(
@@ -324,16 +345,28 @@ async def _check(case, ctx: Ctx) -> CaseResult:
             if not pending_q or not sim.running:
                 pending_q.clear()
                 return
-            rec, qd, _n = pending_q.pop()
+            rec, qd, ready_after = pending_q.pop()
             pool = {t.identity: t for t in sim.schd.pool.get_tasks()}
             for tid in qd:
                 t = pool.get(tid)
                 if t is None:
                     classes.add('queued-before:gone-after-iteration')
                     continue
+                if not ready_after.get(tid):
+                    a = rec['before'].get(tid) or {}
+                    b = rec['after'].get(tid) or {}
+                    new_unsat = any(
+                        v is False and k not in a.get('sat', {})
+                        for k, v in b.get('sat', {}).items())
+                    classes.add(
+                        'queued-before:not-ready-after-reload:'
+                        + ('new-unsatisfied-prerequisite' if new_unsat
+                           else 'other'))
+                    continue
                 st_ = t.state
                 if (st_.status != 'waiting' or st_.is_held
-                        or st_.is_runahead or t.is_manual_submit):
+                        or st_.is_runahead or t.is_manual_submit
+                        or t.waiting_on_job_prep):
                     classes.add('queued-before:moved-on')
                     continue
                 if not t.is_ready_to_run():
